@@ -19,6 +19,9 @@ Proof. unfold len. rewrite app_length. lia. Qed.
 Lemma len_map {A B} (f : A -> B) l : len (map f l) = len l.
 Proof. unfold len. rewrite map_length. reflexivity. Qed.
 
+Lemma len_repeat {A} (x : A) k : len (repeat x k) = Z.of_nat k.
+Proof. unfold len. rewrite repeat_length. reflexivity. Qed.
+
 Lemma wrap_i32_id : forall z, in_i32 z = true -> wrap_i32 z = z.
 Proof.
   intros z H. unfold in_i32 in H. apply andb_true_iff in H. destruct H as [H1 H2].
@@ -66,15 +69,22 @@ Proof.
 Qed.
 
 (* ---------------------------------------------------------------- rectangular matrices *)
+Lemma rect_cons : forall (r0 : list Z) t,
+  rect (r0 :: t) = forallb (fun r => len r =? len r0) t && dim_ok (r0 :: t) && dim_ok r0.
+Proof. reflexivity. Qed.
+
+Lemma dim_ok_lt : forall A (l : list A), dim_ok l = true -> len l < 2147483648.
+Proof. intros A l H. unfold dim_ok in H. apply Z.ltb_lt in H. exact H. Qed.
+
 Lemma rect_inv : forall m, rect m = true ->
   exists r0 t, m = r0 :: t /\ (forall r, In r m -> len r = len r0) /\ len m < 2147483648 /\ len r0 < 2147483648.
 Proof.
-  intros [|r0 t] H; [discriminate|]. unfold rect in H.
+  intros [|r0 t] H; [discriminate H|]. rewrite rect_cons in H.
   apply andb_true_iff in H. destruct H as [H H3]. apply andb_true_iff in H. destruct H as [H1 H2].
   exists r0, t. split; [reflexivity|]. split; [|split].
   - intros r [<-|Hr]; [reflexivity|]. rewrite forallb_forall in H1. apply Z.eqb_eq. apply H1. exact Hr.
-  - unfold dim_ok in H2. apply Z.ltb_lt in H2. exact H2.
-  - unfold dim_ok in H3. apply Z.ltb_lt in H3. exact H3.
+  - apply dim_ok_lt. exact H2.
+  - apply dim_ok_lt. exact H3.
 Qed.
 
 Lemma last_in {A} (d : A) : forall l, l <> [] -> In (last l d) l.
@@ -122,7 +132,7 @@ Proof.
     unfold cw. apply wrap_u32_small. split; [apply clamp_nonneg | apply clamp_le; lia]. }
   rewrite Hcw in Hk.
   assert (Hlen : len row = len (sparse_row row) + Z.of_nat k).
-  { rewrite <- (len_map clamp row), Hk, len_app. unfold len at 3. rewrite repeat_length. reflexivity. }
+  { rewrite <- (len_map clamp row), Hk, len_app, len_repeat. reflexivity. }
   unfold dense_row.
   pose proof (len_nonneg row). pose proof (len_nonneg (sparse_row row)).
   destruct (len row <? 0) eqn:E1; [apply Z.ltb_lt in E1; lia|].
@@ -200,6 +210,9 @@ Proof.
   induction counts as [|c t IH]; intros acc; [reflexivity|].
   unfold pairs in *. cbn [indptr_from tl combine pairs_from]. f_equal. apply IH.
 Qed.
+
+Lemma len_indptr_from : forall counts acc, len (indptr_from acc counts) = len counts.
+Proof. induction counts as [|c t IH]; intros acc; [reflexivity|]. cbn [indptr_from]. rewrite !len_cons, IH. reflexivity. Qed.
 
 Lemma pairs_from_length : forall counts acc, length (pairs_from acc counts) = length counts.
 Proof. induction counts as [|c t IH]; intros acc; cbn; [reflexivity|]. rewrite IH. reflexivity. Qed.
@@ -291,13 +304,12 @@ Qed.
 Theorem csr_dense_roundtrip : forall m, rect m = true -> bind (dense_to_csr m) csr_to_dense = Ok m.
 Proof.
   intros m Hrect. destruct (rect_inv m Hrect) as [r0 [t [Hm [Hrows [Hd1 Hd2]]]]].
-  unfold dense_to_csr. rewrite Hm at 1. cbn [bind]. rewrite <- Hm.
+  unfold dense_to_csr. rewrite Hm at 1. cbn [bind].
   unfold csr_to_dense, csr_of_rows. cbn [csr_rows csr_cols csr_indptr].
   pose proof (len_nonneg m). pose proof (len_nonneg r0).
   rewrite (wrap_i32_small (len m)) by lia. rewrite (wrap_i32_small (len r0)) by lia.
   destruct (len m <? 0) eqn:E1; [apply Z.ltb_lt in E1; lia|].
-  rewrite len_cons. unfold len at 2. rewrite (indptr_length_aux (map len (map (nz_from 0) m)) 0).
-  rewrite !map_length. fold (len m).
+  rewrite len_cons, len_indptr_from, !len_map.
   destruct ((0 <? len m) && (len m + 1 <? len m + 1)) eqn:E2;
     [apply andb_true_iff in E2; destruct E2 as [_ E2]; apply Z.ltb_lt in E2; lia|].
   replace (Z.to_nat (len m)) with (length (map (nz_from 0) m)) by (rewrite map_length; unfold len; lia).
@@ -307,12 +319,53 @@ Proof.
                csr_indices := concat (map (map (fun e => wrap_i32 (fst e))) (map (nz_from 0) m));
                csr_indptr := 0 :: indptr_from 0 (map len (map (nz_from 0) m)) |}).
   change 0 with (len (@nil Z)) at 1.
-  rewrite (csr_rows_walk (assign_row (csr_cols c)) (map (nz_from 0) m) c [] []); [| reflexivity | reflexivity | reflexivity].
+  rewrite (csr_rows_walk (assign_row (len r0)) (map (nz_from 0) m) c [] []); [| reflexivity | reflexivity | reflexivity].
   rewrite mapM_map. rewrite <- (map_id m) at 2. apply mapM_ok.
-  intros row Hrow. cbn [csr_cols c].
+  intros row Hrow.
   rewrite map_id_in.
   - rewrite <- (Hrows row Hrow). apply assign_row_nz.
   - intros e He. destruct e as [x v]. cbn [snd]. f_equal. unfold wi. cbn [fst].
     apply nz_from_bounds in He. cbn [fst] in He. apply wrap_i32_small.
     rewrite (Hrows row Hrow) in He. lia.
+Qed.
+
+(* ---------------------------------------------------------------- map CSR (couples) *)
+Lemma in_i32_bounds : forall z, in_i32 z = true -> -2147483648 <= z < 2147483648.
+Proof.
+  intros z H. apply andb_true_iff in H. destruct H as [H1 H2].
+  apply Z.leb_le in H1. apply Z.ltb_lt in H2. lia.
+Qed.
+
+Lemma len_pairs_from : forall counts acc, len (pairs_from acc counts) = len counts.
+Proof. intros. unfold len. rewrite pairs_from_length. reflexivity. Qed.
+
+(* csr_to_maps (map_to_csr m) = m *)
+Theorem csr_maps_roundtrip : forall m,
+  dim_ok m = true ->
+  forallb (msortedb Z.compare) m = true ->
+  forallb (forallb (fun e => in_i32 (fst e))) m = true ->
+  csr_to_maps (map_to_csr m) = Ok m.
+Proof.
+  intros m Hdim Hsorted Hrange. apply dim_ok_lt in Hdim. pose proof (len_nonneg m).
+  unfold csr_to_maps, map_to_csr, csr_of_rows. cbn [csr_rows csr_cols csr_indptr].
+  rewrite (wrap_i32_small (len m)) by lia.
+  destruct (len m <? 0) eqn:E1; [apply Z.ltb_lt in E1; lia|].
+  rewrite pairs_indptr, len_pairs_from, len_map, Z.ltb_irrefl.
+  set (c := {| csr_rows := len m; csr_cols := len m;
+               csr_data := concat (map (map snd) m);
+               csr_indices := concat (map (map (fun e => wrap_i32 (fst e))) m);
+               csr_indptr := 0 :: indptr_from 0 (map len m) |}).
+  change 0 with (len (@nil Z)) at 1.
+  rewrite (csr_rows_walk (fun es => Ok (map_of_list Z.compare es)) m c [] []); [| reflexivity | reflexivity | reflexivity].
+  rewrite (mapM_ok _ (fun row => row)).
+  - cbn [bind]. rewrite map_id. replace (Z.to_nat (len m) - length m)%nat with O by (unfold len; lia).
+    cbn [repeat]. rewrite app_nil_r. reflexivity.
+  - intros row Hrow. f_equal.
+    rewrite forallb_forall in Hsorted, Hrange.
+    rewrite map_id_in.
+    + apply (map_of_list_id Z.compare Zcompare_ok). apply (msortedb_sorted Z.compare Zcompare_ok).
+      apply Hsorted. exact Hrow.
+    + intros [k v] He. cbn [snd]. f_equal. unfold wi. cbn [fst].
+      specialize (Hrange row Hrow). rewrite forallb_forall in Hrange. specialize (Hrange _ He). cbn [fst] in Hrange.
+      apply wrap_i32_id. exact Hrange.
 Qed.
